@@ -149,6 +149,9 @@ func (w World) exec(cfg *Cfg, rng *sim.RNG, script []Switch, o sim.Options) *sim
 			return res
 		}
 	}
+	for h := range s.pairs {
+		res.States = append(res.States, h) // coverage measure of world Y: distinct function pairs interleaved
+	}
 	res.Count("probe.conc.groups", 1)
 	res.Count("probe.conc.hands", int64(k))
 	res.Count("fault.goroutine-switch-inside-engine-call", int64(s.vol))
@@ -199,7 +202,6 @@ func (w World) exec(cfg *Cfg, rng *sim.RNG, script []Switch, o sim.Options) *sim
 			res.Count(kk, v)
 		}
 		res.Trans = append(res.Trans, c.Trans...)
-		res.States = append(res.States, c.States...)
 		if panics[i] != "" {
 			// an engine call made by an oracle of the property under check
 			// (deliveries themselves are panic-protected by world E)
